@@ -258,14 +258,22 @@ func runC19(c *core.Ctx) {
 		b := gen.CanonEnv(env)
 		want := core.Run(def, src, b)
 		e := liquid.NewEngine()
+		var early *liquid.Template
+		var epr core.Res
 		if entries%3 == 0 {
 			// an earlier configuration of the same engine must not matter: Delims sets all four delimiters - also for a
 			// source that the engine has parsed and rendered under the earlier configuration
 			e.Delims("[[", "]]", "[%", "%]")
 			core.Run(e, rs, gen.CanonEnv(env))
 			core.ParseAndRenderString(e, rs, gen.CanonEnv(env))
+			early, epr = core.ParsePlain(e, "early [[ n ]] [% if t %]yes[% endif %] [[ s | upcase ]]")
 		}
 		e.Delims(engQ[0], engQ[1], engQ[2], engQ[3])
+		if early != nil && epr.OK() {
+			// ... nor does rendering, under the new configuration, a template that was parsed under the earlier one
+			core.Render(early, gen.CanonEnv(env))
+			c.Obs("renders_of_a_template_parsed_under_an_earlier_configuration", 1)
+		}
 		if strings.Contains(src, "c19part.html") {
 			// the partials are templates of the same engine: written with the same delimiters
 			for name, psrc := range map[string]string{"c19part.html": c19Partial, "c19leaf.html": c19Leaf} {
@@ -306,12 +314,14 @@ func runC19(c *core.Ctx) {
 		}
 		// the default delimiter strings are ordinary text under q
 		if q[0] != "{{" && q[2] != "{%" && !strings.HasPrefix("{{", q[0]) && !strings.HasPrefix("{%", q[2]) && !strings.HasPrefix("{{", q[2]) && !strings.HasPrefix("{%", q[0]) {
-			txt := "a {{ n }} b {% if t %} c {%- endif -%} }} %}"
-			if sameTokens(c19Tokens(txt, q), []c19tok{{Tok: ref.Tok{Kind: ref.Text, Src: txt}}}) {
-				gt := core.Run(e, txt, b)
-				c.Eval(1)
-				if !gt.OK() || gt.Out != txt {
-					c.Violate("defaults-as-text|"+resClass(gt), "under custom delimiters the default delimiter strings must be ordinary text", map[string]any{"delims": fmt.Sprintf("%q", engQ), "source": txt, "observed": gt.Brief()})
+			for _, txt := range []string{"a {{ n }} b {% if t %} c {%- endif -%} }} %}", "price {{ and {% are lone openers, }} and %} lone closers; at the very end: {%", "{{", "x {{- y", "{% raw %}{{ {% endraw"} {
+				if sameTokens(c19Tokens(txt, q), []c19tok{{Tok: ref.Tok{Kind: ref.Text, Src: txt}}}) {
+					gt := core.Run(e, txt, b)
+					c.Eval(1)
+					c.Obs("default_delimiters_as_text", 1)
+					if !gt.OK() || gt.Out != txt {
+						c.Violate("defaults-as-text|"+resClass(gt), "under custom delimiters the default delimiter strings must be ordinary text", map[string]any{"delims": fmt.Sprintf("%q", engQ), "source": txt, "observed": gt.Brief()})
+					}
 				}
 			}
 		}
